@@ -161,9 +161,9 @@ func poolRules(p *Prog, r *Report, R string) {
 		b := nm.Ev("store", "*.Body")
 		h := nm.Ev("store", "*.Header")
 		rc := nm.Ev("call", "atomic.StoreInt32")
-		r.Check(len(b) == 1 && strings.HasSuffix(b[0].Args[0], ".bbuf") && len(b[0].Guard) == 0, R, "NewMessage/body-reset", b.Pos(p), "Body = bbuf (empty) on every path", "NewMessage does not reset Body to the empty bbuf on every path: a recycled message carries old bytes")
-		r.Check(len(h) == 1 && strings.HasSuffix(h[0].Args[0], ".hbuf") && len(h[0].Guard) == 0, R, "NewMessage/header-reset", h.Pos(p), "Header = hbuf (empty) on every path", "NewMessage does not reset Header on every path")
-		r.Check(len(rc) == 1 && strings.HasSuffix(rc[0].Args[0], ".refcnt") && rc[0].Args[1] == "1" && len(rc[0].Guard) == 0, R, "NewMessage/refcnt-one", rc.Pos(p), "refcnt = 1 atomically", "NewMessage does not set the reference count to 1 on every path")
+		r.Check(len(b) == 1 && strings.HasSuffix(b[0].Args[0], ".bbuf") && b[0].Unconditional(), R, "NewMessage/body-reset", b.Pos(p), "Body = bbuf (empty) on every path", "NewMessage does not reset Body to the empty bbuf on every path: a recycled message carries old bytes")
+		r.Check(len(h) == 1 && strings.HasSuffix(h[0].Args[0], ".hbuf") && h[0].Unconditional(), R, "NewMessage/header-reset", h.Pos(p), "Header = hbuf (empty) on every path", "NewMessage does not reset Header on every path")
+		r.Check(len(rc) == 1 && strings.HasSuffix(rc[0].Args[0], ".refcnt") && rc[0].Args[1] == "1" && rc[0].Unconditional(), R, "NewMessage/refcnt-one", rc.Pos(p), "refcnt = 1 atomically", "NewMessage does not set the reference count to 1 on every path")
 	}
 	nw := q.Fn(R, "", "", "newMsg")
 	if nw.OK() {
@@ -202,7 +202,7 @@ func poolRules(p *Prog, r *Report, R string) {
 	cl := q.Fn(R, "", "Message", "Clone")
 	if cl.OK() {
 		inc := cl.Ev("call", "atomic.AddInt32").Arg(1, "1")
-		r.Check(len(inc) == 1 && len(inc[0].Guard) == 0, R, "Clone/increments-once", inc.Pos(p), "one atomic increment", "Clone does not increment the reference count exactly once")
+		r.Check(len(inc) == 1 && inc[0].Unconditional(), R, "Clone/increments-once", inc.Pos(p), "one atomic increment", "Clone does not increment the reference count exactly once")
 	}
 	mu := q.Fn(R, "", "Message", "MakeUnique")
 	if mu.OK() {
